@@ -603,6 +603,43 @@ pub fn check_shape(l: &Loaded) -> Result<(), String> {
     }
 }
 
+/// A loaded calendar is queried through the date-arithmetic entry points, provided it meets
+/// their stated precondition (some weekday works, and the settlement side opens too).
+fn exercise_calendar<C: DateRoll>(c: &C) {
+    let week: Vec<chrono::NaiveDateTime> = (0..14).map(|k| ts_to_ndt((20_000 + k) * 86_400)).collect();
+    if !week.iter().any(|d| c.is_weekday(d)) {
+        return;
+    }
+    // business day AND settlement day somewhere within a year of the probe dates
+    let opens = |from: i64| {
+        (0..370).any(|k| {
+            let d = ts_to_ndt((from + k) * 86_400);
+            c.is_bus_day(&d) && c.is_settlement(&d)
+        }) && (0..370).any(|k| {
+            let d = ts_to_ndt((from - k) * 86_400);
+            c.is_bus_day(&d) && c.is_settlement(&d)
+        })
+    };
+    for day in [10_957i64, 10_960, 11_322, 19_000, 19_723] {
+        if !opens(day) {
+            continue;
+        }
+        let d = ts_to_ndt(day * 86_400);
+        for s in [false, true] {
+            for n in [-3i8, -1, 0, 1, 2] {
+                let _ = c.lag(&d, n, s);
+                let _ = c.add_bus_days(&d, n, s);
+                let _ = c.add_days(&d, n, &Modifier::ModF, s);
+            }
+            for m in [Modifier::Act, Modifier::F, Modifier::ModF, Modifier::P, Modifier::ModP] {
+                let _ = c.roll(&d, &m, s);
+            }
+            let _ = c.add_months(&d, 1, &Modifier::ModF, &RollDay::Unspecified {}, s);
+            let _ = c.add_months(&d, -13, &Modifier::P, &RollDay::EoM {}, s);
+        }
+    }
+}
+
 /// Use after load, for types whose query totality follows from the shape invariants alone.
 pub fn exercise(l: &Loaded) {
     match l {
@@ -636,6 +673,24 @@ pub fn exercise(l: &Loaded) {
                     }
                 }
                 let _ = g == *f;
+            }
+        }
+        Loaded::Cal(c) => exercise_calendar(c),
+        Loaded::Union(c) => exercise_calendar(c),
+        Loaded::Named(c) => exercise_calendar(c),
+        Loaded::CalType(c) => exercise_calendar(c),
+        Loaded::Curve(c) => {
+            // the fallible curve entry point; look-ups need two nodes (not demanded of a load)
+            // (a Null-interpolated curve refuses look-ups by contract: only before its first node)
+            let nodes = c.nodes();
+            let null = c.to_json_direct().map(|t| t.contains("\"Null\"")).unwrap_or(true);
+            if nodes.len() >= 2 {
+                let first = *nodes.keys().min().unwrap();
+                let _ = c.index_value(first - chrono::Duration::days(1));
+                if !null {
+                    let _ = c.index_value(first);
+                    let _ = c.index_value(first + chrono::Duration::days(1));
+                }
             }
         }
         Loaded::SplF(p) => {
